@@ -178,6 +178,19 @@ def to_coq(c):
     if op == "sesscheck":
         exp = "(Some (%s, %s))" % (B(o.get("out")), Z(o["left"])) if o["ok"] else "None"
         return "CSessCheck %s %d %s %s %s" % (mtab(c.get("macs")), c["key"], Z(c["now"]), B(c.get("tok")), exp)
+    if op == "sessstate":
+        return "CSessState %s %d %s %s %s" % (mtab(c.get("macs")), c["key"], Z(c["now"]), B(c.get("tok")), bl(o["ok"]))
+    if op == "sessjson":
+        return "CSessJson %s %d %s %s %s %s" % (mtab(c.get("macs")), c["key"], Z(c["now"]), B(c.get("tok")),
+                                                bl(c.get("jsonok")), bl(o["ok"]))
+    if op == "jwtany":
+        return "CJwtAny %s %s %s %s %s %d %s" % (bl(c.get("vrej")), Z(c["now"]), B(c.get("tok")), ohdr(c.get("hp")),
+                                                 oclm(c.get("cp")), o["err"], oclm(o.get("claims")))
+    if op == "jwtrsfetch":
+        card = "[" + "; ".join(pkey(k) for k in c.get("card") or []) + "]"
+        return "CJwtRsFetch %s %s %s %s %s %s %s %s %d %s" % (
+            bl(c.get("nocard")), card, B(c.get("user")), B(c.get("host")), Z(c["now"]), B(c.get("tok")),
+            ohdr(c.get("hp")), oclm(c.get("cp")), o["err"], oclm(o.get("claims")))
     if op == "gatecheck":
         exp = "(Some (%s, %s))" % (B(o.get("out")), bl(o.get("refresh"))) if o["ok"] else "None"
         return "CGate %s %d %s %s %s %s" % (mtab(c.get("macs")), c["key"], Z(c["maxttl"]), Z(c["now"]),
@@ -385,7 +398,7 @@ class Oracle:
                 and not jwt_time_ok(c["cp"], int(c["now"])):
             return ("jwt-hs:accepted-outside-parsed-time",
                     "a token was accepted outside the time window of the claims encoding/json parses from it")
-        if op in ("jwtrs", "selfverify") and o["ok"] and txt((c.get("hp") or {}).get("alg", "")) != b"RS256":
+        if op in ("jwtrs", "selfverify", "jwtrsfetch") and o["ok"] and txt((c.get("hp") or {}).get("alg", "")) != b"RS256":
             return "jwt-rs:accepted-other-alg", "a token whose header alg is not RS256 was accepted"
         if mu is None:
             return None
@@ -426,6 +439,26 @@ class Oracle:
                 return "session:genuine-rejected", "unexpired session rejected"
             if accepted and o.get("out", "") != info.get("payload", ""):
                 return "session:wrong-payload", "session check returned other data than was signed"
+        elif op in ("sessstate", "sessjson"):
+            # CheckState: a live session without payload; CheckJSON: a live session whose payload is JSON
+            alive = now < info["expires"]
+            payload = txt(info.get("payload", ""))
+            fits = (payload == b"") if op == "sessstate" else bool(c.get("jsonok"))
+            if accepted and not alive:
+                return fam + ":accepted-at-or-after-expiry", "%s accepted %d ns after the expiry" % (op, now - info["expires"])
+            if accepted and not fits:
+                return fam + ":accepted-wrong-kind", "%s accepted a session whose payload is %r" % (op, payload)
+            if alive and fits and not accepted:
+                return fam + ":genuine-rejected", "%s refused a live session of its kind" % op
+            if accepted and op == "sessjson" and o.get("out", "") != info.get("payload", ""):
+                return fam + ":wrong-payload", "CheckJSON delivered other data than was signed"
+        elif op == "jwtany":
+            want = (not c.get("vrej")) and jwt_time_ok(c["cp"], now)
+            if accepted != want:
+                return ("jwt-any:%s" % ("accepted-against-verifier-or-time" if accepted else "genuine-rejected"),
+                        "DecodeAndVerify with a %s verifier at %d gave %s" % (c.get("note"), now, accepted))
+            if accepted and (not o.get("payok") or o.get("claims") != c["cp"]):
+                return "jwt-any:wrong-payload", "DecodeAndVerify returned other claims/payload than the token holds"
         elif op == "tscheck":
             w = abs(int(c["window"]))
             want = abs(now - info["t0"]) < w
@@ -446,7 +479,10 @@ class Oracle:
                         "HS256 token checked at %d gave %s" % (now, accepted))
             if accepted and (not o.get("payok") or o.get("claims") != c["cp"]):
                 return "jwt-hs:wrong-payload", "verification returned other claims/payload than were signed"
-        elif op in ("jwtrs", "selfverify"):
+        elif op in ("jwtrs", "selfverify", "jwtrsfetch"):
+            if op == "jwtrsfetch" and c.get("nocard") and accepted:
+                return ("jwt-rs:accepted-without-identity",
+                        "token accepted although fetching the identity failed (%s)" % c.get("note"))
             kid = c["hp"]["kid"]
             keys = [k for k in c.get("card") or [] if k["id"] == kid]
             key_ok = bool(keys) and any(
@@ -468,16 +504,43 @@ class Oracle:
                 return "jwt-rs:named-key-rejected", "token signed by the valid key its header names was rejected"
             if accepted and not want_time:
                 return "jwt-rs:accepted-outside-time", "RS256 token accepted outside its time window"
-            if accepted and op == "selfverify":
+            if accepted and op in ("selfverify", "jwtrsfetch"):
                 cl = o["claims"]
                 user, host = c.get("user", ""), c.get("host", "")
                 if txt(cl["iss"]) != b"." or (user and cl["sub"] != user) or (host and cl["aud"] != host):
                     return "jwt-self:accepted-foreign-claims", "self token accepted for another user/host/issuer"
-            if (not accepted and want_time and mu["class"] == "genuine" and keys and
+            if (not accepted and want_time and mu["class"] == "genuine" and keys and not c.get("nocard") and
                     all(k["type"] == "7373682d727361" for k in keys[:1]) and
                     (int(keys[0]["nvb"]) <= 0 or now >= int(keys[0]["nvb"]) * NS) and now <= int(keys[0]["nva"]) * NS):
                 return "jwt-rs:genuine-rejected", "issued RS256 token rejected inside all its windows"
         return None
+
+
+def pairs_oracle(c):
+    """Auxiliary observations: each carries the value the property text implies."""
+    for p in c.get("pairs") or []:
+        if p["got"] != p["want"]:
+            return p["name"], "%s: observed %r, the property implies %r (%s)" % (p["name"], p["got"][:200], p["want"][:200],
+                                                                                c.get("note", ""))
+    return None
+
+
+def usage_oracle(c):
+    """Implementation-only usage cases: accepted only if genuine, in time and with
+    the consent of every caller-supplied callback; then with the signed payload."""
+    f, o = c["facts"], c["obs"]
+    if o.get("crash"):
+        return "crash", "the code under test panicked: %s" % o["crash"][:200]
+    if o["ok"]:
+        for fact, key in (("genuine", "accepted-not-genuine"), ("intime", "accepted-out-of-time"),
+                          ("consent", "accepted-without-consent")):
+            if not f[fact]:
+                return key, "%s: accepted" % c.get("note", "")
+        if f.get("payload") and o.get("out", "") != f["payload"]:
+            return "wrong-payload", "%s: delivered %r, signed %r" % (c.get("note", ""), txt(o.get("out", "")), txt(f["payload"]))
+    elif f["genuine"] and f["intime"] and f["consent"]:
+        return "genuine-rejected", "%s: refused" % c.get("note", "")
+    return pairs_oracle(c)
 
 
 def case_bases(c, orc):
@@ -559,29 +622,9 @@ def corr_eval(ck, full, orc):
     return sorted(mism), failed
 
 
-def run(ck):
-    scale = 1 if not ck.thorough else 24
-    ck.gen()
-    built = ck.coq_make(MODEL + PROOFS, clean=ck.thorough)
-    ck.obligations = ck.count_statements(STATEMENT_FILES)
-    proofs_ok = all(built.get(x) for x in PROOFS)
-    if proofs_ok:
-        if ck.audit("theories/Props/C16.v"):
-            ck.discharged = list(ck.obligations)
-    if ck.thorough and proofs_ok:
-        ck.coqchk(["Verif.Props.C16"])
-
-    binp = ck.build_harness("c16")
-    cases = []
-    if binp:
-        rc, out, err = vlib.sh2([binp, "-seed", str(ck.seed), "-n", str(scale)], timeout=1500)
-        if rc != 0:
-            ck.broken.append({"what": "harness run failed", "detail": err[-1500:]})
-        for line in out.splitlines():
-            if line.startswith("{"):
-                cases.append(json.loads(line))
-
-    # implementation-only oracle (also the search for a failing input)
+def oracle_pass(ck, cases):
+    """The implementation-only oracle over all harness cases (also the search for a
+    failing input).  Returns (oracle, the cases the Coq model is evaluated on)."""
     orc = Oracle()
     full = []
     sweep_evals = 0
@@ -606,6 +649,15 @@ def run(ck):
                              {"case": c, "expected": txt(c.get("user", "")).decode("utf8", "replace"),
                               "observed": txt(c.get("host", "")).decode("utf8", "replace")})
             continue
+        if c["op"] == "usage":
+            ck.count(c["stream"], key=(c["note"], json.dumps(c.get("facts"), sort_keys=True)))
+            v = usage_oracle(c)
+            if v:
+                ck.violation("impl:%s:%s" % (c["stream"], v[0]), v[1],
+                             {"case": c, "expected": "accepted only if genuine, inside its time window and with the consent "
+                                                     "of every callback; auxiliary observations as the property implies",
+                              "observed": c["obs"]})
+            continue
         if c["op"] == "passconc":
             ck.count(c["stream"], key=(c["note"], c.get("n", 0)))
             if c["obs"].get("crash") or not c["obs"]["ok"]:
@@ -626,6 +678,10 @@ def run(ck):
         ck.count(c["stream"], key=json.dumps({k: v for k, v in c.items() if k not in ("i", "obs", "mut", "tokid")},
                                              sort_keys=True), trivial=trivial)
         v = orc.judge(c)
+        if not v and c.get("pairs"):
+            pv = pairs_oracle(c)
+            if pv:
+                v = ("%s:%s" % (c.get("fam", c["op"]), pv[0]), pv[1])
         if v:
             ck.violation("impl:" + v[0], v[1],
                          {"case": c, "expected": "rejected unless bit-for-bit the issued token, inside its time "
@@ -637,6 +693,33 @@ def run(ck):
         s = {k: c[k] for k in c if k != "i"}
         if len(json.dumps(s)) < 4000:
             ck.sample(s)
+
+    return orc, full
+
+
+def run(ck):
+    scale = 1 if not ck.thorough else 24
+    ck.gen()
+    built = ck.coq_make(MODEL + PROOFS, clean=ck.thorough)
+    ck.obligations = ck.count_statements(STATEMENT_FILES)
+    proofs_ok = all(built.get(x) for x in PROOFS)
+    if proofs_ok:
+        if ck.audit("theories/Props/C16.v"):
+            ck.discharged = list(ck.obligations)
+    if ck.thorough and proofs_ok:
+        ck.coqchk(["Verif.Props.C16"])
+
+    binp = ck.build_harness("c16")
+    cases = []
+    if binp:
+        rc, out, err = vlib.sh2([binp, "-seed", str(ck.seed), "-n", str(scale)], timeout=1500)
+        if rc != 0:
+            ck.broken.append({"what": "harness run failed", "detail": err[-1500:]})
+        for line in out.splitlines():
+            if line.startswith("{"):
+                cases.append(json.loads(line))
+
+    orc, full = oracle_pass(ck, cases)
 
     # correspondence: the models evaluated inside Coq on the same inputs
     model_ok = all(built.get(x) for x in MODEL)
